@@ -75,9 +75,13 @@ end
 
 def shift (k : Nat) (n : Node) : Node := mapPos (fun p => (p.1 + k, p.2 + k)) n
 
-/-- `_endfinder`: the end of the *last visited* here-document body, -1 (none) if there is none -/
+/-- `_endfinder`: the furthest end of a here-document body in the tree, -1 (none) if there is none
+    (before fix D39 this was the end of the *last visited* body; the name is kept) -/
 def lastHeredocEnd (n : Node) : Option Nat :=
-  (n.preorder.filterMap fun m => match m with | heredoc p _ => some p.2 | _ => none).getLast?
+  let ends := n.preorder.filterMap fun m => match m with | heredoc p _ => some p.2 | _ => none
+  match ends with
+  | [] => none
+  | e :: es => some (es.foldl max e)
 
 end Node
 
